@@ -455,7 +455,8 @@ func TestC14Long(t *testing.T) {
 	outcomes := []string{"ok", "status", "cancel", "deadline", "reset", "failopen", "sendfail", "srvabort", "cancelnow"}
 	var samples []string
 	hist := map[string]int{}
-	maxInflight, idleSamples, maxSrv := 0, 0, 0
+	maxInflight, idleSamples, maxSrv, srvLeaked := 0, 0, 0, 0
+	var recent, leakNotes []string
 	leaked := bubble(t, func(t *testing.T) {
 		l := NewLink(false)
 		l.Auto = true
@@ -540,6 +541,10 @@ func TestC14Long(t *testing.T) {
 			for _, a := range active {
 				if a.done.Load() {
 					hist["outcome:"+a.kind+"/"+a.outcome+"->"+a.result]++
+					recent = append(recent, fmt.Sprintf("step %d: #%d %s/%s->%s", step, a.n, a.kind, a.outcome, a.result))
+					if len(recent) > 10 {
+						recent = recent[1:]
+					}
 					a.openGate()
 					g.mu.Lock()
 					delete(g.rpcs, a.n)
@@ -574,6 +579,11 @@ func TestC14Long(t *testing.T) {
 			}
 			if srv > maxSrv {
 				maxSrv = srv
+			}
+			if inflight == 0 && srv > srvLeaked && len(leakNotes) < 5 {
+				// diagnosis for the replay file: the RPCs that ended just before the server was first seen holding more than before
+				leakNotes = append(leakNotes, fmt.Sprintf("server holds %d at step %d with nothing in flight; ended last: %v", srv, step, recent))
+				srvLeaked = srv
 			}
 			samples = append(samples, fmt.Sprintf("(%d, %s, %d, %d, %s)", reg, coqZ(int64(loops)), inflight, streams, coqZ(int64(srv))))
 		}
@@ -708,7 +718,7 @@ func TestC14Long(t *testing.T) {
 			tags = append(tags, k)
 		}
 	}
-	em.Emit(Rec{Idx: idx, Kind: "c14-long", Desc: map[string]any{"rpcs": total, "samples": len(samples), "max_inflight": maxInflight, "idle_samples": idleSamples, "outcomes": hist},
+	em.Emit(Rec{Idx: idx, Kind: "c14-long", Desc: map[string]any{"rpcs": total, "samples": len(samples), "max_inflight": maxInflight, "idle_samples": idleSamples, "outcomes": hist, "server_leak_notes": leakNotes},
 		Tags: tags, Coq: "C14Long " + coqList(samples)})
 	em.Marker("end", idx)
 }
